@@ -543,6 +543,51 @@ def expectedCallsKVs : List (Bytes × Obj) → List Call
   | (_, v) :: rest => expectedCalls v ++ expectedCallsKVs rest
 end
 
+/-! ### two phases: `getobj` (strings, eager) and `get_data()` (payload, lazy) -/
+
+def Call.isStr : Call → Bool
+  | .str _ => true
+  | .payload _ _ => false
+
+/-- What `getobj` hands out BEFORE anybody calls `get_data()`: every string - also those of a
+    stream dictionary - is already deciphered, the payload is still as stored. -/
+def getobjLazy (P : Prims) (h : Handler) (loc : Loc) (objid genno : Nat) (o : Obj) : Obj :=
+  match loc with
+  | .direct => decipherAll (decrypt P h objid genno false) (fun _ raw => raw) o
+  | _ => o
+
+/-- The decipher step of `PDFStream.get_data()` on the object `getobj` returned. -/
+def getData (P : Prims) (h : Handler) (objid genno : Nat) : Obj → Obj
+  | .stream attrs raw =>
+    if attrsType attrs = some atomXRef then .stream attrs raw
+    else .stream attrs (decrypt P h objid genno (attrsType attrs = some atomMetadata) raw)
+  | o => o
+
+/-- cipher calls made by `getobj` itself / by the later `get_data()` -/
+def lazyCalls (o : Obj) : List Call := (expectedCalls o).filter Call.isStr
+def dataCalls (o : Obj) : List Call := (expectedCalls o).filter (fun c => ! c.isStr)
+
+mutual
+/-- no stream nested inside (a PDF dictionary or array can only *refer* to a stream) -/
+def flat : Obj → Bool
+  | .str _ => true
+  | .atom _ => true
+  | .arr xs => flatList xs
+  | .dict kvs => flatKVs kvs
+  | .stream _ _ => false
+def flatList : List Obj → Bool
+  | [] => true
+  | x :: xs => flat x && flatList xs
+def flatKVs : List (Bytes × Obj) → Bool
+  | [] => true
+  | (_, v) :: rest => flat v && flatKVs rest
+end
+
+/-- a whole indirect object as it can occur in a file -/
+def wellFormed : Obj → Bool
+  | .stream attrs _ => flatKVs attrs
+  | o => flat o
+
 /-- The object cache of `PDFDocument` (`_cached_objs`), state carried across `getobj` calls. -/
 structure DocState where
   cache : List (Nat × Obj) := []
